@@ -296,7 +296,7 @@ def triage(ctx: Ctx, w: Write, kind: str, why: str, schema: Schema):
         ok, reason = _arg_fresh_at_sites(p, "indent", 0, allow_recursive_in="indent")
         return ok, "pretty-printer mutates the tree it is given: " + reason
     # 6. stream cursor
-    if mod == "ofxtools.header" and qn == "parse_header" and kind == "param" and w.kind in ("call:seek",):
+    if mod == "ofxtools.header" and kind == "param" and w.kind in ("call:seek",):
         return True, "moves the stream position only; the bytes are untouched"
     # 7. _apply_args appends to the instance under construction
     if qn.endswith("._apply_args") and kind == "self":
@@ -438,6 +438,18 @@ def e_rules(p: Project, rep: Report, thorough=False):
                     rep.check("E-R4", f"{name}:shared-instance({text(v.func)})", False, f"a {text(v.func)} instance is created once at import and shared by every parse (its element stack is per-document state)", f"{m.relpath}:{node.lineno}")
     rep.check("E-R4", "no-shared-parser-instances", n_inst == 0, "", "")
     # TreeBuilder instantiated per parse
-    parse = p.get_function("ofxtools.Parser", "OFXTree.parse").node
-    ok = any(isinstance(s, ast.If) and text(s.test) in ("parser is None", "not parser") and any(isinstance(b, ast.Assign) and isinstance(b.value, ast.Call) and _callee_last(b.value) == "TreeBuilder" for b in s.body) for s in own_statements(parse))
+    from .flat import flat as _flat
+    from .match import norm as _norm
+
+    parse = _flat(p, "ofxtools.Parser", p.get_function("ofxtools.Parser", "OFXTree.parse").node, p.get_class("ofxtools.Parser", "OFXTree"), keep=("_read",))
+    pname = params_of(parse)[2] if len(params_of(parse)) > 2 else "parser"
+    ok = False
+    for s_ in own_statements(parse):
+        if isinstance(s_, ast.If):
+            t = text(_norm(s_.test))
+            makes = lambda body: any(isinstance(b, ast.Assign) and isinstance(b.value, ast.Call) and _callee_last(b.value) == "TreeBuilder" and not b.value.args for b in body)
+            if t in (f"{pname} is None", f"not {pname}") and makes(s_.body):
+                ok = True
+            if t in (f"{pname} is not None", pname) and makes(s_.orelse):
+                ok = True
     rep.check("E-R4", "OFXTree.parse:fresh-builder-per-parse", ok, "parse() does not create its own TreeBuilder when none is given", f"{p.module('ofxtools.Parser').relpath}:{parse.lineno}")
